@@ -166,6 +166,7 @@ def run(rng, res, tier, shard, nshards):
     # (2) random histories
     budget = Budget(CASES[tier] // nshards + 1, SECONDS[tier])
     cache = {}
+    specs = {}
     while budget.more():
         r = rng.random()
         if r < 0.25:
@@ -174,9 +175,12 @@ def run(rng, res, tier, shard, nshards):
             name, spec = 'TINY', copy.deepcopy(TINY_SPEC)
         else:
             name = 'gen%d' % rng.randrange(12 if tier == 'quick' else 200)
-            if name not in cache:
-                cache[name] = gen_language(rng, Cfg(max_assets=5, max_assocs=5, max_depth=1))
-            spec = cache[name]
+            if name not in specs:
+                specs[name] = gen_language(rng, Cfg(max_assets=5, max_assocs=5, max_depth=1))
+            spec = specs[name]
+            cache.setdefault(name, True)
+        if len(cache) > 48:
+            cache.clear()        # language graphs + generated classes are heavy: keep a bounded number alive
         if name not in cache or not isinstance(cache.get(name + '/lg'), tuple):
             try:
                 lg2 = LanguageGraph(copy.deepcopy(spec))
